@@ -330,6 +330,27 @@ def binary_mode(ctx, fi, data, lay):
             for u in unpacks:
                 fmt = u[3][0]
                 okf = is_const(fmt) and want is not None and fmt[1] == want
+                fields = None
+                if is_const(fmt) and isinstance(fmt[1], str) and \
+                        want is not None and not okf:
+                    # a composite layout ('>4xI4xI'): same byte order, pad
+                    # bytes, and every value an unsigned 32-bit word
+                    import re as _re
+                    body_ = fmt[1][1:]
+                    items = _re.findall(r'(\d*)([A-Za-z?])', body_)
+                    if fmt[1][:1] == want[0] and items and \
+                            ''.join(a + b for a, b in items) == body_ and \
+                            all(cd in 'xI' for _, cd in items):
+                        okf = True
+                        fields, off_ = [], 0
+                        for cnt, cd in items:
+                            k_ = int(cnt) if cnt else 1
+                            if cd == 'x':
+                                off_ += k_
+                            else:
+                                for _i in range(k_):
+                                    fields.append(off_)
+                                    off_ += 4
                 ctx.ob('C04.D1', q, 'length-format', okf,
                        'lengths in the fixed header must be read as %r on '
                        'this path (byte-order flag %s "l"); read as %s - a '
@@ -340,7 +361,13 @@ def binary_mode(ctx, fi, data, lay):
                 if kind(src) == 'sub' and kind(src[2]) == 'slice' and \
                         is_const(src[2][1]) and is_const(src[2][2]) and \
                         _is_buf_value(src[1], data):
-                    roles[src[2][1][1]] = (u, src[2][2][1])
+                    roles[src[2][1][1]] = (u, src[2][2][1], 0)
+                elif u[1] == 'struct.unpack_from' and fields is not None \
+                        and _is_buf_value(src, data) and (
+                            len(u[3]) == 2 or is_const(u[3][2])):
+                    base_ = u[3][2][1] if len(u[3]) == 3 else 0
+                    for k_, off_ in enumerate(fields):
+                        roles[base_ + off_] = (u, base_ + off_ + 4, k_)
                 elif u[1] == 'struct.unpack_from' and len(u[3]) == 3 and \
                         _is_buf_value(src, data) and is_const(u[3][2]) and \
                         is_const(fmt):
@@ -349,22 +376,24 @@ def binary_mode(ctx, fi, data, lay):
                         w = _st.calcsize(fmt[1])
                     except _st.error:
                         w = 0
-                    roles[u[3][2][1]] = (u, u[3][2][1] + w)
+                    roles[u[3][2][1]] = (u, u[3][2][1] + w, 0)
             okr = set(roles) == {lay['body_len'], lay['array_len']} and \
-                all(hi - lo == 4 for lo, (u, hi) in roles.items())
+                all(hi - lo == 4 for lo, (u, hi, _k) in roles.items())
             ctx.ob('C04.D1', q, 'length-offsets', okr,
                    'body length and field-array length live at bytes '
                    '%d..%d and %d..%d of the fixed header; read at %s' % (
                        lay['body_len'], lay['body_len'] + 4,
                        lay['array_len'], lay['array_len'] + 4,
-                       sorted((lo, hi) for lo, (u, hi) in roles.items())))
+                       sorted((lo, hi) for lo, (u, hi, _k) in roles.items())))
             # total length expression
             stores = [ev[3] for ev in trace if ev[0] == 'setattr' and
                       ev[2] == '_nextMsgLen' and ev[3] != C(0)]
             if okr and stores:
                 T = stores[0]
-                ub = ('sub', roles[lay['body_len']][0], C(0))
-                ua = ('sub', roles[lay['array_len']][0], C(0))
+                ub = ('sub', roles[lay['body_len']][0],
+                      C(roles[lay['body_len']][2]))
+                ua = ('sub', roles[lay['array_len']][0],
+                      C(roles[lay['array_len']][2]))
                 bad = None
                 for h in range(0, 41):
                     for b in (0, 1, 5, 8):
